@@ -65,6 +65,11 @@ CLAIMED = {
              'bounded model checking of the real text of SendLastStateProcess::execute, update_prove_state_to_child, commit_prove_state and new_child over '
              'models of Storage/Peers with an ordered log of every effect: tip stored only with strictly greater, truthful total difficulty of a linked '
              'child / proven header. Restart through RocksDB and multi-peer sequences outside', 'C12', KM),
+    'C13': c(['K-model'],
+             'bounded model checking of the real text of get_cells / get_cells_capacity / build_query_options / build_filter_options and the key encoding over a read-only '
+             'sorted snapshot model (<= 3 rows, ordered seek in both directions): exactly the entries matching the search key and every filter, in key order, descending = reverse '
+             'of ascending, page-by-page through last_cursor exactly once, capacity = sum over exactly those cells with the stored tip; key bytes order = numeric order. '
+             'get_transactions (grouping) and more than 3 rows are outside the claim', 'C13', KM),
     'C14': c(['K-real'],
              'bounded model checking on the REAL functions and 256-bit numext arithmetic: completeness for legal histories (narrow operands), soundness '
              '(exact within one epoch / across one switch, tau envelope otherwise), no abort for arbitrary peer-supplied numbers; <=3 epoch switches',
@@ -82,9 +87,6 @@ CLAIMED = {
              'verify_tx" on MIR. Acceptance only of verifiable transactions (RocksDB resolution, CKB-VM) is declined', 'C18', KM + ' + ' + MM),
 }
 NOT_APPLICABLE = {
-    'C13': 'pagination, ordering, filters, grouping and the capacity sum live in closures over RocksDB snapshot iterators (FFI): not encodable by Kani/CBMC or a '
-           'MIR path query within reach; the one encodable ingredient (byte order of index keys = numeric order, injectivity, disjoint key spaces) is decided '
-           'under C03 (O3.3) and does not by itself decide this property',
     'C17': 'concurrency: Kani/CBMC does not model Rust threads and no concurrent solver-based engine is available in this sandbox; only lock-discipline facts '
            '(writes under the matched-blocks write lock: C04 O4.1, C06 O6.1, C09 O9.3, C02 O2.6) are decided, which is not the property',
 }
